@@ -65,6 +65,17 @@ def trigger_asts():
                     prog += [{"k": "var", "n": "x", "e": lv}, OUT({"k": "call", "f": "to_string", "a": [{"k": "bin", "op": op, "l": ID("x"), "r": rv}]}),
                              fdef("g", [EX({"k": "bin", "op": op, "l": ID("a"), "r": rv})], ["a"]), OUT({"k": "call", "f": "to_string", "a": [{"k": "call", "f": "g", "a": [ID("x")]}]}), EX(I(0))]
                     progs.append(prog)
+    # && / || with a constant left operand: the right operand's type check and the fresh const result must survive
+    for kind in ("and", "or"):
+        for lv in (B(True), B(False), {"k": "bin", "op": "<", "l": I(1), "r": I(2)}):
+            for rv in (I(5), S("s"), ID("flag"), B(True), {"k": "bin", "op": ">", "l": {"k": "call", "f": "tick", "a": [I(3)]}, "r": I(1)}):
+                e = {"k": kind, "l": lv, "r": rv}
+                tick = fdef("tick", [OUT(ID("a")), EX(ID("a"))], ["a"])
+                progs.append([tick, {"k": "var", "n": "flag", "e": B(True)}, {"k": "var", "n": "y", "e": e}, OUT({"k": "call", "f": "to_string", "a": [ID("y")]}), EX(I(0))])
+                progs.append([tick, {"k": "var", "n": "flag", "e": B(True)}, fdef("pick", [{"k": "ret", "e": {"k": kind, "l": lv, "r": ID("x")}}], ["x"]),
+                              OUT({"k": "call", "f": "to_string", "a": [{"k": "call", "f": "pick", "a": [rv]}]}), EX(I(0))])
+                progs.append([tick, {"k": "var", "n": "flag", "e": B(True)}, {"k": "ref", "n": "r", "e": e}, {"k": "asg", "l": ID("r"), "e": B(False)}, OUT(ID("flag")), EX(I(0))])
+                progs.append([tick, {"k": "var", "n": "flag", "e": B(True)}, {"k": "if", "c": e, "t": [OUT(I(1))], "ei": [], "haselse": True, "f": [OUT(I(2))]}, EX(I(0))])
     return progs
 
 
@@ -141,6 +152,11 @@ def run(ck, tier, seed):
     if pinned2_diff == 0:
         raise lib.Infra("sanity: a Partial_Fold that captures any literal must change behaviour on the operator-matrix family")
     ck.notes.append(f"sanity: with Partial_Fold capturing any literal TLC finds {pinned2_diff} programs whose behaviour changes (expected)")
+    res4 = lib.tlc("OptimizerExport", "OptimizerExport_pinned3", workers=1, env={"IN": inp, "OUT": out + ".pinned3"}, timeout=2400, heap="6g")
+    pinned3_diff = sum(1 for r in lib.read_ndjson(out + ".pinned3") if r["plain"] != r["optimized"])
+    if pinned3_diff == 0:
+        raise lib.Infra("sanity: folding && / || on a constant left operand alone must change behaviour on the logical-operator family")
+    ck.notes.append(f"sanity: with && / || folded on a constant left operand alone TLC finds {pinned3_diff} programs whose behaviour changes (expected)")
     # ---- the real engine, both parsers
     cases = []
     texts = {}
